@@ -456,6 +456,26 @@ func vpStepObligations(e *vEnv, pre *vSnap, msg *vPayload) {
 			vAssert("C09.L2.once", nRM <= 1)
 		}
 	}
+	if e.want("C09") && e.api == apiRecoveryMessage && msg != nil && msg.height == pre.height && int(msg.vidx) < e.n && !e.preBlockProcessed {
+		// L3: a recovery message is acted upon at once, whatever view it was sent from (a node
+		// that is behind catches up through it); it is never parked in the future-message cache
+		if vParam("rreq") == 0 && vParam("rresp") == 0 && vParam("rpc") == 0 && vParam("rc") == 0 {
+			// (embedded preparations/commits of a higher view are legitimately cached; change views never are)
+			vAssert("C09.L3.notcached", len(d.cache.mail) == pre.ncache)
+		}
+		if msg.view > pre.view && e.preOwnCommit == nil && e.preOwnPreCommit == nil && msg.rec != nil {
+			for _, m := range msg.rec.chViews {
+				cv := m.(*vPayload)
+				if cv.height == pre.height && int(cv.vidx) < e.n && cv.newView > pre.view && int(cv.vidx) != e.my {
+					old := pre.cvs[cv.vidx]
+					if old == nil || old.(*vPayload).newView <= cv.newView {
+						vCover("C09.L3.changeview")
+						vAssert("C09.L3.changeview", d.ChangeViewPayloads[cv.vidx] == m || d.LastChangeViewPayloads[cv.vidx] == m || d.ViewNumber > pre.view)
+					}
+				}
+			}
+		}
+	}
 	if e.want("C16") {
 		nCV, nPReq, nAny := 0, 0, 0
 		for _, ev := range e.log {
@@ -482,6 +502,9 @@ func vpStepObligations(e *vEnv, pre *vSnap, msg *vPayload) {
 					// O1: empty pool: no proposal yet, subscribe, wait for the rest of the maximum interval
 					vCover("C16.O1.defer")
 					vAssert("C16.O1.defer", nAny == 0 && e.nSubscribe == pre.nSubscribe+1 && d.txSubscriptionOn && e.armed && e.td == d.maxTimePerBlock-d.timePerBlock && e.nTimerReset == pre.nTimerReset+1)
+					// nothing was proposed: the reference instant of the block interval must not move
+					vAssert("C16.O1.defer.state", vNs(d.lastBlockTime) == pre.lbtime && d.lastBlockIndex == pre.lastBlockIndex && d.lastBlockView == pre.lastBlockView &&
+						vNs(d.prepareSentTime) == pre.pstime && len(d.TransactionHashes) == pre.ntxh && d.PreparationPayloads[e.my] == nil)
 				} else {
 					vAssert("C16.O1.propose", nPReq == 1 && !d.txSubscriptionOn)
 				}
@@ -495,6 +518,7 @@ func vpStepObligations(e *vEnv, pre *vSnap, msg *vPayload) {
 				// O2: an idle chain is no reason for a view change
 				vCover("C16.O2.defer")
 				vAssert("C16.O2.defer", nAny == 0 && e.nSubscribe == pre.nSubscribe+1 && d.txSubscriptionOn && e.armed && e.td == d.maxTimePerBlock<<1-d.timePerBlock<<1 && e.td >= 0)
+				vAssert("C16.O2.defer.state", vNs(d.lastBlockTime) == pre.lbtime && d.lastBlockIndex == pre.lastBlockIndex && d.lastBlockView == pre.lastBlockView && d.ViewNumber == pre.view)
 			}
 			if backup && notify {
 				vCover("C16.O2.notify")
